@@ -10,6 +10,7 @@ import base64, json, os, re, subprocess, sys, time
 import vlib
 from vlib import Broken
 
+TIMES = {}
 DRIVER = os.path.join(vlib.VERIF, "harness", "scm", "codec.scm")
 PROC_TIMEOUT = 120
 
@@ -21,21 +22,47 @@ class Sym(str):
     pass
 
 
+class C(list):
+    """a code-point string (travels as "c:<6 hex digits each>")"""
+
+
+class T(list):
+    """a JSON string / member-name token [tag, cp...] (travels as "<tag>c:<hex6...>")"""
+
+
 def sx(v):
     if isinstance(v, Sym):
         return str(v)
     if isinstance(v, (bytes, bytearray)):
-        return "#u8(" + " ".join(str(b) for b in v) + ")"
+        return '"h:' + bytes(v).hex() + '"'
+    if isinstance(v, C):
+        return '"c:' + "".join("%06x" % c for c in v) + '"'
+    if isinstance(v, T):
+        return '"%dc:' % v[0] + "".join("%06x" % c for c in v[1:]) + '"'
     if isinstance(v, bool):
         raise ValueError(v)
     if isinstance(v, int):
         return str(v)
     if isinstance(v, str):
-        assert re.match(r"^[A-Za-z0-9:/_.+<>=%-]*$", v), v
+        assert re.match(r"^[A-Za-z][A-Za-z0-9:/_.+<>=%-]*$", v) and not re.match(r"^\d*[hc]:", v), v
         return '"' + v + '"'
     if isinstance(v, (list, tuple)):
         return "(" + " ".join(sx(x) for x in v) + ")"
     raise ValueError(v)
+
+
+def expand(line):
+    """driver output -> JSON for TLC: "#h:<hex>" / "#<tag>c:<hex6>" become arrays of integers (format conversion only)"""
+    def one(m):
+        pre, kind, hx = m.group(1), m.group(2), m.group(3)
+        if kind == "h":
+            vals = list(bytes.fromhex(hx))
+        else:
+            vals = [int(hx[i:i + 6], 16) for i in range(0, len(hx), 6)]
+        if pre:
+            vals = [int(pre)] + vals
+        return "[" + ",".join(map(str, vals)) + "]"
+    return re.sub(r'"#(\d*)([hc]):([0-9a-f]*)"', one, line)
 
 
 class Case:
@@ -45,6 +72,10 @@ class Case:
         self.id = 0
         self.kind = kind
         self.cls = cls
+        if kind == "json":
+            args = [[T(t) if t[0] in (4, 9) else t for t in args[0]], args[1]]
+        elif kind == "csv":
+            args = [[[bytes(f) for f in r] for r in args[0]], args[1]]
         self.args = args
         self.feat = tuple(feat)      # features present (used only to label rejected mixed cases)
         self.group = group           # cases of one group share processes
@@ -62,7 +93,7 @@ def rbytes(rng, n):
 
 def big_sizes(rng, thorough):
     """seeded sample of lengths 65..4096 hitting every residue mod 12 (hence mod 3 and mod 4)"""
-    out = set([2047, 2048, 2049, 2050, 4095, 4096, 2963, 2964, 2965])
+    out = set([2047, 2048, 2049, 2050, 4095, 4096, 2221, 2222, 2223, 2224])
     reps = 3 if thorough else 1
     for r in range(12):
         for _ in range(reps):
@@ -81,8 +112,8 @@ def gen_bytestring_cases(rng, small, thorough):
         b = bytes(x)
         cases.append(Case("b64", "small", [b, base64.b64encode(b)]))
         cases.append(Case("qp", "short", [b]))
-        cases.append(Case("uri", "latin1", [list(b), 0]))
-        cases.append(Case("uri", "plus", [list(b), 1]))
+        cases.append(Case("uri", "latin1", [C(b), 0]))
+        cases.append(Case("uri", "plus", [C(b), 1]))
     # every length 0..64, every byte value
     inputs = [rbytes(rng, n) for n in range(0, 65)]
     inputs += [bytes(range(256))] + [bytes(range(16 * i, 16 * i + 16)) for i in range(16)]
@@ -90,8 +121,8 @@ def gen_bytestring_cases(rng, small, thorough):
     for b in inputs:
         cases.append(Case("b64", "len", [b, base64.b64encode(b)]))
         cases.append(Case("qp", "short" if len(b) <= 25 else "long", [b]))
-        cases.append(Case("uri", "latin1", [list(b), 0]))
-        cases.append(Case("uri", "plus", [list(b), 1]))
+        cases.append(Case("uri", "latin1", [C(b), 0]))
+        cases.append(Case("uri", "plus", [C(b), 1]))
     # printable runs around the quoted-printable line limit
     for n in list(range(70, 82)) + [150, 151, 152, 153, 228]:
         cases.append(Case("qp", "long", [b"a" * n]))
@@ -101,12 +132,12 @@ def gen_bytestring_cases(rng, small, thorough):
         b = rbytes(rng, n)
         cases.append(Case("b64", "big", [b, base64.b64encode(b)]))
         cases.append(Case("qp", "long", [b]))
-        cases.append(Case("uri", "latin1", [list(b), rng.randrange(2)]))
+        cases.append(Case("uri", "latin1", [C(b), rng.randrange(2)]))
         t = bytes(rng.choice(b"abcdefghijklmnopqrstuvwxyz0123456789 .,;=?_\r\n\t") for _ in range(n))
         cases.append(Case("qp", "long", [t]))
     # URI escaping of characters beyond Latin-1
     for cps in ([955], [97, 955, 98], [8364], [128512], [0x100], [0xFFFF], [0x10FFFF], [233, 955, 32, 47]):
-        cases.append(Case("uri", "cp>255", [cps, 0]))
+        cases.append(Case("uri", "cp>255", [C(cps), 0]))
     return cases
 
 
@@ -147,7 +178,7 @@ def gen_utf_cases(rng, thorough):
     out = []
     for cps in seqs:
         st = "".join(chr(c) for c in cps).encode("utf-8")
-        out.append(Case("utf", utf_class(cps), [cps, st]))
+        out.append(Case("utf", utf_class(cps), [C(cps), st]))
     return out
 
 
@@ -639,6 +670,19 @@ def gen_hostile_cases(rng, thorough):
                 add(d, "pair", b)
             for b in raw:
                 add(d, "random", b)
+    # every byte value after every character that makes the decoder look ahead / switch mode
+    for a in (13, 34, 10, 44):
+        for b in range(256):
+            add("csv", "pair", bytes([a, b]))
+    for b in range(256):
+        add("json", "pair", bytes([34, b]))
+        add("json", "pair", bytes([34, 92, b, 34]))
+        add("json", "pair", bytes([34, 92, 117, b, 48, 48, 48, 34]))
+        add("qp", "pair", bytes([61, b]))
+        add("qp", "pair", bytes([61, 52, b]))
+        add("qp", "pair", bytes([32, b]))
+        add("uri", "pair", bytes([37, b, 48]))
+        add("uri", "pair", bytes([37, 52, b]))
     return out
 
 
@@ -651,8 +695,8 @@ def probe_cases():
     return [
         Case("b64", "probe", [x, base64.b64encode(x)], group="hostile"),
         Case("qp", "probe", [x], group="hostile"),
-        Case("uri", "probe", [list(x), 0], group="hostile"),
-        Case("utf", "probe", [[97, 233, 0x20AC], "a\u00e9\u20ac".encode("utf-8")], group="hostile"),
+        Case("uri", "probe", [C(x), 0], group="hostile"),
+        Case("utf", "probe", [C([97, 233, 0x20AC]), "a\u00e9\u20ac".encode("utf-8")], group="hostile"),
         Case("acc", "probe", [Sym("u32-ref"), bytes([1, 2, 3, 4, 5, 6]), 1, 4, Sym("big"), 0], group="hostile"),
         Case("acc", "probe", [Sym("s64-set"), bytes(10), 1, 8, Sym("little"), -2], group="hostile"),
         Case("uv", "probe", [Sym("s16"), 3, -5, Sym("set"), 1, 300], group="hostile"),
@@ -665,26 +709,27 @@ def probe_cases():
 # ----------------------------------------------------------------------------------------------
 # running the driver (with recovery after a crash: the rest of the cases runs in a new process)
 # ----------------------------------------------------------------------------------------------
-def run_chunk(build, sc, label, cases):
+def run_chunk(build, sc, label, cases, env=None):
     """-> list of trace lines (strings, with X events), number of processes used"""
     lines = []
     rest = list(cases)
     nproc = 0
+    t_start = time.time()
     while rest:
         nproc += 1
-        if nproc > 40:
-            raise Broken("chunk %s: more than 40 crashes, giving up" % label)
+        if nproc > 200:
+            raise Broken("chunk %s: more than 200 crashes, giving up" % label)
         cf = sc.file("cases_%s_%d.txt" % (label, nproc))
         with open(cf, "w") as f:
             for c in rest:
                 f.write(c.line() + "\n")
         to = 0
         try:
-            p = build.run([DRIVER, cf], timeout=PROC_TIMEOUT)
+            p = build.run([DRIVER, cf], timeout=PROC_TIMEOUT, env=env)
             rc, outb, err = p.returncode, p.stdout, p.stderr
         except subprocess.TimeoutExpired as ex:
             rc, outb, err, to = -9, ex.stdout or b"", ex.stderr or b"", 1
-        got = [ln for ln in outb.decode("ascii", errors="replace").split("\n") if ln.startswith("{") and ln.endswith("}")]
+        got = [expand(ln) for ln in outb.decode("ascii", errors="replace").split("\n") if ln.startswith("{") and ln.endswith("}")]
         done = any(ln.startswith('{"e":"Done"') for ln in got)
         lines += got
         lines.append('{"e":"X","id":0,"rc":%d,"to":%d}' % (rc, to))
@@ -706,6 +751,7 @@ def run_chunk(build, sc, label, cases):
         if not idx:
             raise Broken("driver reported unknown case id %s" % last_b)
         rest = rest[idx[0] + 1:]
+    TIMES[label] = (round(time.time() - t_start, 1), nproc, len(cases))
     return lines, nproc
 
 
@@ -718,7 +764,7 @@ def validate(sc, label, lines):
     if r.error or r.violated or r.rc != 0:
         raise Broken("CodecTrace failed on %s: %s\n%s" % (label, r.error or r.violated, r.out[-1500:]))
     rej = []
-    for m in re.finditer(r'<<"REJECT", (\d+), <<(.*?)>>>>', r.out):
+    for m in re.finditer(r'<<\s*"REJECT",\s*(\d+),\s*<<(.*?)>>\s*>>', r.out, re.S):
         rej.append((int(m.group(1)), re.findall(r'"([^"]+)"', m.group(2))))
     m = re.search(r'<<"SUMMARY", (\d+), (\d+), (\d+)>>', r.out)
     if not m:
@@ -728,10 +774,64 @@ def validate(sc, label, lines):
     return int(m.group(1)), rej, r
 
 
+def selftest(sc, lines):
+    want = {}
+    out = []
+    k = 0
+    for i, ln in enumerate(lines):
+        if not ln.startswith('{"e":"C"') or i == 0 or not lines[i - 1].startswith('{"e":"B"'):
+            continue
+        ev = json.loads(ln)
+        if ev["kind"] == "b64" and len(ev["x"]) >= 3 and ev["enc"] and ev["enc"][0] >= 0 and "b64" not in want:
+            bad = dict(ev)
+            bad["enc"] = [ev["enc"][0] ^ 1] + ev["enc"][1:]                 # one recorded byte changed
+            bad["id"] = 900001
+            want["b64"] = (900001, "enc-means-x")
+            out += ['{"e":"B","id":900001}', json.dumps(bad, separators=(",", ":"))]
+        elif ev["kind"] == "acc" and ev["oc"] == "ok" and ev["op"].endswith("-ref") and ev["v"] and "acc" not in want:
+            bad = dict(ev)
+            bad["v"] = [1 - ev["v"][0]] + ev["v"][1:] if len(ev["v"]) > 1 else [0, 1]   # sign / value changed
+            bad["id"] = 900002
+            want["acc"] = (900002, "ref-value")
+            out += ['{"e":"B","id":900002}', json.dumps(bad, separators=(",", ":"))]
+        elif ev["kind"] == "json" and ev["rd"] == ev["toks"] and len(ev["toks"]) > 2 and "json" not in want:
+            bad = dict(ev)
+            bad["rd"] = ev["rd"][:-1]                                         # one token dropped
+            bad["id"] = 900003
+            want["json"] = (900003, "read")
+            out += ['{"e":"B","id":900003}', json.dumps(bad, separators=(",", ":"))]
+        elif ev["kind"] == "h" and "h" not in want:
+            want["h"] = (900004, "crash")
+            out += ['{"e":"B","id":900004}', '{"e":"X","id":0,"rc":-11,"to":0}']   # result never recorded
+        if len(want) == 4:
+            break
+    if len(want) < 3:
+        raise Broken("self-test: could not find events to corrupt")
+    if not out[-1].startswith('{"e":"X"'):
+        out.append('{"e":"X","id":0,"rc":0,"to":0}')
+    _, rej, _ = validate(sc, "selftest", out)
+    rej = dict(rej)
+    for kind, (i, claim) in want.items():
+        if i not in rej:
+            raise Broken("self-test: corrupted %s event (expected to fail %s) was accepted" % (kind, claim))
+
+
+def key_of(c, claim):
+    """structural key of a rejection: kind, failed claim, class of the input"""
+    cls = c.cls
+    if c.kind == "h":
+        cls = cls.split(":")[0]                      # the decoder; which mutation hit it is incidental
+    elif c.kind == "json" and claim in ("write", "reread") and cls.startswith("str:"):
+        cls = cls.split("/")[0]                      # the writer does not see how the input text spelled the character
+    return "%s:%s:%s" % (c.kind, claim, cls)
+
+
 # ----------------------------------------------------------------------------------------------
 def run():
     chk = vlib.Check("C19")
     rng = chk.rng
+    import shutil
+    shutil.rmtree(chk.replay_dir, ignore_errors=True)          # replay files of earlier runs of this property
     with vlib.Scratch("c19") as sc:
         build = vlib.build_repo(sc.sub("build"))
         # ---- the specification checks itself; the same run prints the small enumeration
@@ -765,20 +865,30 @@ def run():
         oob = [c for c in cases if c.group == "oobset"]
         for i, ch in enumerate(vlib.chunks(main, 1200)):
             chunks.append(("m%d" % i, ch))
-        for i, ch in enumerate(vlib.chunks(oob, 6)):
+        for i, ch in enumerate(vlib.chunks(oob, 16)):
             chunks.append(("o%d" % i, ch))
-        for i, ch in enumerate(vlib.chunks(hostile, 1500)):
-            pc = probe_cases()
-            for c in pc:
-                nid += 1
-                c.id = nid
-            cases += pc
-            chunks.append(("h%d" % i, ch + pc))
+        # hostile input: per decoder, in several processes each (a damaged heap shows or not depending on
+        # where the process happens to be mapped), freed memory poisoned, fixed probe computation at the end
+        bydec = {}
+        for c in hostile:
+            bydec.setdefault(c.cls.split(":")[0], []).append(c)
+        for dec, cs in sorted(bydec.items()):
+            nch = max(8 if dec == "csv" else 1, (len(cs) + 599) // 600)
+            for j in range(nch):
+                pc = probe_cases()
+                for c in pc:
+                    nid += 1
+                    c.id = nid
+                cases += pc
+                chunks.append(("h_%s_%d" % (dec, j), cs[j::nch] + pc))
         byid = {c.id: c for c in cases + hostile}
+        henv = {"CHIBI_VERIF_POISON": "1"}
         t0 = time.time()
-        ran = vlib.parallel(lambda lc: (lc[0], run_chunk(build, sc, lc[0], lc[1])), chunks, jobs=8)
+        ran = vlib.parallel(lambda lc: (lc[0], run_chunk(build, sc, lc[0], lc[1], henv if lc[0].startswith("h_") else None)),
+                            chunks, jobs=8)
         chk.cov["driver_seconds"] = round(time.time() - t0, 1)
         chk.cov["driver_processes"] = sum(x[1][1] for x in ran)
+        chk.cov["slowest_chunks"] = sorted(((v, k) for k, v in TIMES.items()), reverse=True)[:8]
         # ---- TLC judges: traces are packed into shards of bounded size
         shards, cur, cursize = [], [], 0
         for label, (lines, _) in ran:
@@ -806,7 +916,7 @@ def run():
         notrepro = set()
         if rejected:
             again = [byid[i] for i in sorted(rejected) if i in byid][:600]
-            lines2, _ = run_chunk(build, sc, "again", again)
+            lines2, _ = run_chunk(build, sc, "again", again, henv)
             _, rej2, _ = validate(sc, "again", lines2)
             rej2 = dict(rej2)
             for c in again:
@@ -815,6 +925,9 @@ def run():
                         raise Broken("case %d (%s %s) rejected once and accepted on a second run: nondeterministic" %
                                      (c.id, c.kind, c.cls))
                     notrepro.add(c.id)
+        # ---- the binding is demonstrated on this run's own trace: a corrupted result and a missing result
+        # must be rejected by TLC
+        selftest(sc, [ln for sh in shards for ln in sh])
         # ---- report
         gen_fail = {i: cl for i, cl in rejected.items() if any(x.startswith("gen:") for x in cl)}
         if gen_fail:
@@ -827,29 +940,29 @@ def run():
             c = byid[i]
             if c.cls != "mixed":
                 for cl in claims:
-                    focused.add((c.kind, cl, c.cls))
+                    focused.add(key_of(c, cl))
         for claims in proc_rej:
             by_key.setdefault("process:%s" % claims[0], []).append((0, claims))
         for i, claims in sorted(rejected.items()):
             c = byid[i]
             for cl in claims:
-                key = "%s:%s:%s" % (c.kind, cl, c.cls)
+                key = key_of(c, cl)
                 if c.cls == "mixed" and c.kind == "json":
                     # label a rejected mixed value by a single-feature case of one of its features that
                     # TLC rejected for the same claim in this run; otherwise it keeps its own key
-                    hit = sorted(k for k in focused if k[0] == c.kind and k[1] == cl and
-                                 any(k[2].startswith("str:%s/" % f) for f in c.feat))
+                    hit = sorted(k for k in focused if k.startswith("json:%s:str:" % cl) and
+                                 any(k.startswith("json:%s:str:%s" % (cl, f)) for f in c.feat))
                     if hit:
-                        key = "%s:%s:%s" % hit[0]
+                        key = hit[0]
                 by_key.setdefault(key, []).append((i, claims))
         for key, items in sorted(by_key.items()):
             i, claims = items[0]
             c = byid.get(i)
             content = {"key": key, "rejected_cases_with_this_key": len(items), "claims_failed": claims,
                        "reproduced_on_second_run": i not in notrepro,
-                       "case": c.line()[:4000] if c else None,
-                       "how": "write the case line to a file F and run: chibi-scheme harness/scm/codec.scm F ; "
-                              "validate the output (plus an X event) with spec/CodecTrace.tla"}
+                       "case": c.line() if c else None,
+                       "how": "./check C19 --replay <this file> runs the case line through harness/scm/codec.scm on a fresh "
+                              "build of /repo and lets spec/CodecTrace.tla judge the recorded result"}
             chk.report(key, "%d recorded case(s) rejected by Codec.tla, first: case %d %s" %
                        (len(items), i, (c.line()[:160] if c else claims)),
                        re.sub(r"[^A-Za-z0-9_.-]", "_", key) + ".json", content)
@@ -888,5 +1001,29 @@ def run():
 
 
 def replay(path):
-    print(open(path).read()[:8000])
-    return 0
+    """re-run the saved case on a fresh build and let TLC judge it again"""
+    d = json.load(open(path))
+    print(json.dumps({k: (v if k != "case" else v[:600]) for k, v in d.items()}, indent=1))
+    if not d.get("case"):
+        return 0
+    with vlib.Scratch("c19r") as sc:
+        build = vlib.build_repo(sc.sub("build"))
+        cf = sc.file("case.txt")
+        with open(cf, "w") as f:
+            f.write(d["case"] + "\n")
+        to = 0
+        try:
+            p = build.run([DRIVER, cf], timeout=PROC_TIMEOUT, env={"CHIBI_VERIF_POISON": "1"})
+            rc, outb = p.returncode, p.stdout
+        except subprocess.TimeoutExpired as ex:
+            rc, outb, to = -9, ex.stdout or b"", 1
+        lines = [expand(ln) for ln in outb.decode("ascii", errors="replace").split("\n") if ln.startswith("{") and ln.endswith("}")]
+        lines.append('{"e":"X","id":0,"rc":%d,"to":%d}' % (rc, to))
+        for ln in lines:
+            print(ln[:1500])
+        acc, rej, _ = validate(sc, "replay", lines)
+        for i, claims in rej:
+            print("REJECTED by Codec.tla: case %d, failed claims %s" % (i, claims))
+        if not rej:
+            print("accepted by Codec.tla")
+        return 1 if rej else 0
